@@ -68,6 +68,15 @@ def known(ctx: Any) -> List[Ob]:
     obs.append(ob(R, grp, 'generate_service_query(now) -> _group...(now) -> _DNSPointerOutgoingBucket(now)', 'the bucket time is the time the known answers were selected at', chain_ok))
     # every question with its answers ends in exactly one bucket
     obs.append(ob(R, grp, 'for/else bucket placement', 'each question goes to the first bucket with room or to a new one (exactly once)', _bucket_once(ctx, grp)))
+    obs.extend(write_ttl_obligations(ctx, R))
+    return obs
+
+
+def write_ttl_obligations(ctx: Any, R: str) -> List[Ob]:
+    """The TTL writer writes the record TTL for time 0 and the remaining TTL otherwise, on every path;
+    answers are stored and written with the time they were added with."""
+    prog = ctx.prog
+    obs: List[Ob] = []
     # _write_ttl
     wt = prog.func('zeroconf._protocol.outgoing.DNSOutgoing._write_ttl')
     rec, now = wt.params[1], wt.params[2]
@@ -86,7 +95,11 @@ def known(ctx: Any) -> List[Ob]:
             nonzero = has_now and has_0 and isinstance(t.ops[0], ast.NotEq)
         full, rem = (e.body, e.orelse) if zero else (e.orelse, e.body)
         ok = (zero or nonzero) and norm(full) == f'{rec}.ttl' and isinstance(rem, ast.Call) and call_name(rem) == 'get_remaining_ttl' and [norm(a) for a in rem.args] == [now]
-    obs.append(ob(R, wt, call[0] if call else '_write_int', 'the TTL written is the record TTL for time 0 and the remaining TTL at the given time otherwise', ok))
+    cfgw = cfg_of(wt.node)
+    wnodes = cfgw.nodes_calling('_write_int')
+    bypass = cfgw.must_pass_before_exit(cfgw.entry, lambda n: n in wnodes)
+    other_writes = [norm(c) for c in walk_local_ordered(wt.node) if isinstance(c, ast.Call) and call_name(c) in ('append', 'write_short', 'write_string', '_write_byte', 'insert', 'extend')]
+    obs.append(ob(R, wt, call[0] if call else '_write_int', 'the TTL written is the record TTL for time 0 and the remaining TTL at the given time otherwise -- on every path, with no other way of emitting the field', ok and bypass is None and not other_writes, ('a path writes the TTL field without this computation: ' + '; '.join(other_writes[:2])) if (other_writes or bypass is not None) else ''))
     # answers written with their own time
     wa = prog.func('zeroconf._protocol.outgoing.DNSOutgoing._write_answers_from_offset')
     lp = [n for n in walk_local_ordered(wa.node) if isinstance(n, ast.For)]
